@@ -33,6 +33,9 @@ class Register(Operand):
     @property
     def cstruct(self):
         self._assert_types()
+        encoding.check_int_range(
+            self.index, encoding.REG_INDEX_BITS, False, "register index"
+        )
         return encoding.Register(self.name.value, self.index)
 
     def __bytes__(self):
@@ -57,6 +60,7 @@ class Address(Operand):
     @property
     def cstruct(self):
         self._assert_types()
+        encoding.check_int_range(self.address, encoding.ADDRESS_BITS, True, "address")
         return encoding.Address(self.address)
 
     def __bytes__(self):
